@@ -6,6 +6,7 @@ import (
 	"bytes"
 	"encoding/json"
 	"fmt"
+	"strings"
 	"sync/atomic"
 	"unicode/utf8"
 
@@ -21,6 +22,8 @@ type kase struct {
 	// calls for Next (results must not share storage with later calls)
 	Next []byte `json:"next,omitempty"`
 	Seq  bool   `json:"sequence,omitempty"`
+	// Key: the violation key under which a long input was reported (by shape)
+	Key string `json:"key,omitempty"`
 }
 
 // checkSequence: results obtained for d must be unchanged after the same
@@ -140,7 +143,12 @@ func main() {
 		if c.Seq {
 			return checkSequence(c.Data, c.Next)
 		}
-		return checkData(c.Data)
+		vs := checkData(c.Data)
+		if c.Key != "" && len(vs) > 0 {
+			vs = vs[:1]
+			vs[0].Key = c.Key
+		}
+		return vs
 	}
 	r.ConcurrentReplay = true
 	r.Noise = func(i int) {
@@ -191,9 +199,37 @@ func main() {
 			}
 		}
 	})
-	r.Set("evaluations", evals)
-	r.Set("distinct_nontrivial", nontrivial)
-	r.Set("rule", fmt.Sprintf("every byte string of length <= %d over {-,SP,a,>,LF,CR,0xff}, each once; non-trivial = has \"-- \" at a line start", maxLen))
+	// long lines: lengths that straddle the buffer sizes a line-oriented
+	// implementation might use, at the start, middle and end of a body
+	var longs int64
+	short := func(x string) string {
+		if len(x) > 300 {
+			return x[:150] + " ... " + x[len(x)-150:]
+		}
+		return x
+	}
+	sizes := []int{4095, 4096, 4097, 65534, 65535, 65536, 65537, 131072, 1 << 20}
+	for _, n := range sizes {
+		for li, line := range []string{strings.Repeat("a", n) + "\n", strings.Repeat("a", n), "-- " + strings.Repeat("m", n) + " --\n", ">" + strings.Repeat("a", n) + "\n", strings.Repeat("a", n) + "\r\n"} {
+			for _, pre := range []string{"", "x\n", "-- m --\n"} {
+				for _, post := range []string{"", "y\n", "-- k --\n"} {
+					if li == 1 && post != "" {
+						continue
+					}
+					d := []byte(pre + line + post)
+					longs++
+					for _, v := range checkData(d) {
+						key := fmt.Sprintf("%s long-line kind=%d len=%d pre=%q post=%q", strings.SplitN(v.Key, " ", 2)[0], li, n, pre, post)
+						r.Violation(key, short(v.What), kase{Data: d, Key: key})
+					}
+				}
+			}
+		}
+	}
+	r.Set("long_line_bodies", longs)
+	r.Set("evaluations", evals+longs)
+	r.Set("distinct_nontrivial", nontrivial+longs)
+	r.Set("rule", fmt.Sprintf("every byte string of length <= %d over {-,SP,a,>,LF,CR,0xff}, each once; plus bodies with one line of 4095..4097, 65534..65537, 131072 or 1048576 bytes (plain, unterminated, marker, quoted-looking, CRLF) at the start, middle or end; non-trivial = has \"-- \" at a line start, or a long line", maxLen))
 	r.Set("needs_quote_true", needs)
 	r.Set("quote_accepted", quoted)
 	r.Set("max_len", maxLen)
